@@ -97,7 +97,7 @@ PROPS = {
                     'mathematical segment boundaries of the canonical serialisation; unbounded in entry count and store size.',
     ),
     'C17': dict(
-        level='proof', verus=['c17_compressor', 'c17_add_data', 'c19_caps', 'c06_files', 'c06_blocks'],
+        level='proof', verus=['c17_compressor', 'c17_add_data', 'c19_caps', 'c06_files', 'c06_blocks', 'c09_lead'],
         trusted_base=[A_TOOLS, A_EXTRACT, 'A-ENC: the encoder constructors (flate2, liblzma, bzip2, zstd) do not panic inside their DOCUMENTED level ranges, which are stated as preconditions of stand-in constructors in the unit',
                       'A-PATH: std::path / OsStr / String plumbing called by add_data (PathBuf::from, parent, file_name, strip_prefix, to_string_lossy, starts_with, clone, format!) does not panic; its RESULTS are arbitrary in the unit (no specification), so the proof holds for whatever std::path reports; sha2 / hex / BTreeMap / BTreeSet calls likewise'],
         assumptions=['claimed for TWO parts: "a compression level the encoder cannot honour is reported as an error or mapped to a supported level, never a crash", and "destinations that cannot be split into a directory and a file name are reported as errors": PackageBuilder::add_data (every file setter ends there) has no reachable panic for ANY destination string. Capability text: validate_caps_text / validate_suffix / FileCaps::new / from_str are verified to return Ok or Err for every text without panicking (unit c19_caps, the debug_assert! included; validate_capset itself - split, to_uppercase, table lookup - is not under contract). The two `expect`s of prepare_data on narrowing sizes to 32 bits cannot fail: the per-file sizes (block b12 of unit c06_files) and the installed size (block b6 of unit c06_blocks), both from "uses_large_files is false, so the sizes add up to at most u32::MAX". PackageBuilder::source_date and add_changelog_entry unwrap the conversion of a SystemTime / chrono value into a Timestamp (out-of-range instants panic there): these setters take neither strings nor numbers and return Self, so this is noted, not claimed and not changed. The metadata setters are not claimed',
@@ -149,7 +149,7 @@ FIX_COMMITS = [
 ]
 
 PROPS['C06'] = dict(
-    level='proof', verus=['c06_blocks', 'c06_add_data', 'c06_files', 'c06_deps', 'c05_accessors', 'c05_paths', 'c05_entries', 'c09_from_entries'],
+    level='proof', verus=['c06_blocks', 'c06_add_data', 'c06_files', 'c06_deps', 'c05_accessors', 'c05_paths', 'c05_entries', 'c09_from_entries', 'c09_lead'],
     trusted_base=[A_TOOLS, A_EXTRACT, 'A-PATH-SEM: Path::parent / file_name / strip_prefix(".") on clean paths behave as std documents (axioms of unit c06_add_data; K:k_path_semantics checks four fixed paths on the real std::path)', 'BLOCK contracts on verbatim statement ranges of PackageBuilder::prepare_data (the function as a whole is not verified); the transport between the emitted records and the accessors is covered by other checks: from_entries keeps every record (unit c09_from_entries), write/parse reproduce and decode it (C01/C05), typed getters find it (K:k_getters_*)'],
     assumptions=['claimed per part (the function prepare_data as a whole is not verified; the glue between the parts is by reading): SCALARS - name, epoch, version, release, arch, licence, summary, description, group, vendor, packager, URL, VCS, cookie - each is emitted under its rpm tag with its type (blocks b6, b7) and the accessor of that name reads exactly that tag and type (unit c05_accessors); each of the nine scriptlet kinds is emitted by Scriptlet::apply (function contract) under the script / flags / interpreter tags of THAT kind (blocks b9_*, composed by lemma_scriptlet_chain). for every clean destination "<d>/<n>" or ".<d>/<n>" (d a possibly empty sequence of normal components, so files directly under the root are included) add_data records directory "<d>/", base name "<n>" and archive path ".<d>/<n>" (unit c06_add_data; the documented behaviour of std::path on such paths is ASSUMED as axioms A-PATH-SEM, sanity-linked by K:k_path_semantics on four fixed paths). Per-file data, EMITTING half (unit c06_files): one iteration of the file loop appends exactly the size of that file, mode word, clamped mtime, digest, link target, flags, owner, group, verify flags, base name and the index of ITS directory to the parallel arrays (block b10; precondition: the directory is in the directory set of the builder, which add_data establishes), and the arrays are emitted under the tags and types rpm prescribes (block b11); the build host is emitted when set (b8); sizes go out as LONGFILESIZES exactly when they add up to more than u32::MAX, else narrowed to FILESIZES without a reachable panic (b13, b12). Dependencies and changelog, EMITTING half (unit c06_deps): for each of the eight kinds the three arrays are the names, flags and versions of the list of the builder in order (loop blocks d_*) and are emitted under the three tags of THAT kind when the list is not empty, the provides always (blocks r_*); the changelog names, texts and times are emitted in order (r_changelog); the read-back of dependencies (get_dependencies, get_provides .. get_supplements) and of the changelog (get_changelog_entries) is proved in unit c05_accessors against the same numeric tags: entry i from item i of the three arrays, in order. The read-back of scriptlets is get_scriptlet and the ten get_*_script accessors in unit c05_accessors (same numeric tags as the emitting blocks b9_*). NOT covered: the dependencies the builder adds itself to the lists, get_file_entries beyond the body of its fold closure (block e1_file_entry, unit c05_entries; the path itself is get_file_paths, unit c05_paths: directory[dirindex] joined with the base name), the FILECAPS record, uniqueness of the emitted tags across blocks, the builder setters themselves',
                  'R12: `opt.unwrap_or_else(|| s.clone())` is rewritten to a helper with the same value'],
